@@ -37,7 +37,7 @@ SPEC = {
     "level": "proof",
     "harnesses": _hs(),
     "caps": {"jobs": int(os.environ.get("VERIF_JOBS", "16")), "mem_gb": 10,
-             "quick_harness_timeout": 300, "thorough_harness_timeout": 600},
+             "quick_harness_timeout": 300, "thorough_harness_timeout": 1200},
     "functions": [
         "tracing_appender::rolling::Rotation::{next_date, round_date}",
         "tracing_appender::rolling::Inner::{should_rollover, advance_date} on a real Inner built by hook H3 "
